@@ -112,19 +112,29 @@ def runModel (j : Json) : Except String Json := do
       let rdy := MontePyVerif.C02.ready cg.hs && MontePyVerif.C02.chainOK cg.chain cg.hs.fmt
       steps := steps.push (Json.mkObj [("str", h.str), ("text", textTo txt), ("toks", toksJson txt), ("ready", rdy)])
     else
-      if k == "not" then h := h.invert
+      -- the address of the edited HalfSpace: attribute path from the root ("" = the root)
+      let path : Path ← match op.getObjVal? "path" with
+        | .ok (.str ps) => ps.toList.mapM fun ch =>
+            if ch == 'l' then pure Dir.l else if ch == 'r' then pure Dir.r else throw s!"path character {ch}"
+        | _ => pure []
+      if k == "noop" then pure ()
+      else if k == "not" then h := h.editAt HS.invert path
       else if k == "setop" then
-        h := h.setOperator (← parseBOp (← op.getObjVal? "o"))
+        let o ← parseBOp (← op.getObjVal? "o")
+        h := h.editAt (HS.setOperator o) path
       else
         let x ← match op.getObjVal? "xp" with
           | .ok g => do pure (parseInputNode (← parseGT g))
           | .error _ => parseExpr (← op.getObjVal? "x")
-        -- hypothesis `Step.ok` of C02_history_wf: the operand is well-formed
+        -- hypothesis `Edit.ok` of C02_history_edits: the operand is well-formed
         if !(MontePyVerif.C02.wf x) then wfAll := false
-        h ← match k with
-          | "and" => pure (h.and x) | "rand" => pure (x.and h) | "or" => pure (h.or x) | "ror" => pure (x.or h)
-          | "iand" => pure (h.iand x) | "ior" => pure (h.ior x)
+        let f : HS → HS ← match k with
+          | "and" => pure (fun s => s.and x) | "rand" => pure (fun s => x.and s)
+          | "or" => pure (fun s => s.or x) | "ror" => pure (fun s => x.or s)
+          | "iand" => pure (fun s => s.iand x) | "ior" => pure (fun s => s.ior x)
+          | "replace" => pure (fun _ => x)
           | k => throw s!"op {k}"
+        h := h.editAt f path
       steps := steps.push (Json.mkObj [("str", h.str)])
   let ptext := match parsed with
     | some g => Json.str (textTo g.format)
